@@ -67,6 +67,8 @@ type FuncSpec struct {
 	AtReturn    []AtStmt // ghost assignments executed at every return
 	PureHeap    bool     // pure, but the result depends on the (mutable) state of the objects passed: only comparable within one heap version
 	Prune       bool     // drop branches whose path condition is unsatisfiable (they are not translated)
+	AbstractFP  bool     // float64 + - * / as uninterpreted functions (formula identity only)
+	Locks       bool     // sync.Mutex / RWMutex fields modelled as ghost state of the enclosing object
 }
 
 // splitKeyNames splits "Type.Method(recv, a, b)" into the key and the explicit names.
@@ -304,6 +306,14 @@ func (cs *Contracts) parseFile(fset *token.FileSet, f *ast.File, pkgPath string)
 		case "prune":
 			if cur != nil {
 				cur.Prune = true
+			}
+		case "locks":
+			if cur != nil {
+				cur.Locks = true
+			}
+		case "floats":
+			if cur != nil && rest == "abstract" {
+				cur.AbstractFP = true
 			}
 		case "impure":
 			// impure NAME: calls through the function value written NAME have arbitrary side effects
